@@ -113,7 +113,7 @@ theorem gc_setupK (s : St) (k : Kind) (sys : Nat) : GcStep s (setupK s k sys) :=
   · exact GcStep.refl s
   · exact GcStep.of_same rfl rfl rfl rfl
   · exact GcStep.of_same rfl rfl rfl rfl
-  · exact (gc_dropOptS _ (s.trkDsp.start sys).2).after rfl rfl rfl rfl
+  · exact (gc_dropOptS _ (s.trkDsp.start sys _ _).2).after rfl rfl rfl rfl
   · exact GcStep.of_same rfl rfl rfl rfl
   · exact GcStep.of_same rfl rfl rfl rfl
 
